@@ -71,6 +71,12 @@ impl Driver {
     /// One round: queue all datagrams, one process_events, then a sentinel (stepped until
     /// answered). `verify`: match and verify replies with the strict reference verifier.
     pub fn round(&mut self, sends: Vec<(usize, Vec<u8>)>, verify: bool) -> Round {
+        self.round_opts(sends, verify, true)
+    }
+
+    /// `sentinel = false`: no sentinel request is sent (for rounds that consist of requests which
+    /// must be answered anyway, when even the sentinel's own batch would disturb the scenario)
+    pub fn round_opts(&mut self, sends: Vec<(usize, Vec<u8>)>, verify: bool, sentinel: bool) -> Round {
         let t_before = SystemTime::now();
         let mut sent = Vec::with_capacity(sends.len());
         for (s, d) in sends {
@@ -122,7 +128,7 @@ impl Driver {
         let mut sentinel_sent = 0;
         let mut sentinel_bytes = 0;
         let mut sentinel_verified = false;
-        if panic.is_none() {
+        if panic.is_none() && sentinel {
             // up to 60 sentinels: fault injection may spoil individual replies
             for _ in 0..60 {
                 // one process_events call may legitimately stop before the socket is empty
